@@ -62,12 +62,10 @@ def run(ck, models, tier):
                 return sig in deps(v, e)[0]
             n_eff = 0
 
-            def classify(v, d_):
-                """(kind, equal_edge) of a gate decision: kind in 'eq-bool' | 'affix-whole' | 'affix-part' | 'other'."""
-                c = d_[0]
+            def classify_atom(v, c):
+                """c is an atomic condition known TRUE on the path. -> (kind, on_equal_edge, core)"""
                 neg = c.op == "not"
                 core = c.args[0] if neg else c
-                val = d_[1] if not neg else (1 - d_[1] if isinstance(d_[1], int) else d_[1])
                 if core.op in AFFIX:
                     subject = core.args[0]
                     whole = subject == sig or (subject.op in ("trim", "trim_end", "trim_start") and subject.args[0] == sig)
@@ -76,11 +74,14 @@ def run(ck, models, tier):
                 top = core.args[0] if core.op == "ret" else core.op
                 is_eq = core.op in ("str_eq", "str_ne") or (core.op == "ret" and ("PartialEq" in top or top.endswith("::eq") or top.endswith("::ne")))
                 has_bool = any(x.strip() == "bool" for x in strs)
-                if is_eq and has_bool and not uses_leaf(core, lambda x: x.op in AFFIX):
-                    if top.endswith("::ne") or top == "str_ne":
-                        return "eq-bool", val == 0, core
-                    return "eq-bool", val == 1, core
+                if is_eq and has_bool and sig in lv and not uses_leaf(core, lambda x: x.op in AFFIX):
+                    holds_eq = (top.endswith("::eq") or top == "str_eq") != neg      # the atom, as it holds, states equality
+                    return "eq-bool", holds_eq, core
                 return "other", None, core
+
+            def classify(v, d_):
+                """All atomic facts implied by one decision, classified."""
+                return [classify_atom(v, a) for a in guards.true_conds([d_])]
 
             for v in vs:
                 eff = [e for e in v.trace if is_effect(e)]
@@ -95,7 +96,7 @@ def run(ck, models, tier):
                           len(eff), eff[0].name, "dominated" if ok else "NOT dominated",
                           (": " + "; ".join("%s=%s" % (fmt(g[0], 4), g[1]) for g in gates)) if gates else ""),
                       where(eff[0]))
-                cls = [classify(v, g) for g in gates]
+                cls = [c for g in gates for c in classify(v, g)]
                 good = [c for c in cls if c[0] == "eq-bool" and c[1]]
                 if good:
                     ck.ob("R10.2", "%s/install-on-equal-edge-of-equality-with-bool" % rn, tm.target, True,
